@@ -71,6 +71,35 @@ theorem env_arrives_exactly (ro : List Str) (env : List (Str × Val)) (hok : Env
 example : EnvOk sampleEnv ∧ Fresh ["UID".toList] sampleEnv (fun _ => none) :=
   ⟨sampleEnv_ok, fun _ _ h => by simp at h⟩
 
+/-- **env_arrives_from_inside_a_function** — the daemon evaluates the text inside one of its functions
+(`__ebd_process_ebuild_phases`, `__ebd_process_metadata`); bash assigns to the nearest dynamic scope that has the
+name.  Provided no transferred name is a local of the receiving frame (`frame`: the daemon keeps the names it uses
+there — `line`, `cont`, `phases`, `is_depends`, `__data`, `__ret`, … — in its blacklist `PKGCORE_BLACKLIST_VARS`, i.e.
+outside the property's domain), the transfer arrives exactly as in `env_arrives_exactly`. -/
+theorem env_arrives_from_inside_a_function (frame ro : List Str) (env : List (Str × Val)) (hok : EnvOk env)
+    (hframe : ∀ kv ∈ env, kv.1 ∉ frame) (st0 : Store) (hfresh : Fresh ro env st0) :
+    ∃ text asg, genEnvStr ro env = .ok text ∧ evalScript (utf8 text) = some asg ∧
+      Arrives ro env st0 (st0.runIn frame asg) := by
+  obtain ⟨nonexp, hn, _⟩ := nonexportedOf_ok hok.marker_str
+  obtain ⟨text, h1, h2⟩ := evalScript_genEnvStr ro env hok nonexp hn
+  refine ⟨text, _, h1, h2, ?_⟩
+  rw [runIn_eq_run]
+  · exact arrives_executed ro env hok nonexp hn st0 hfresh
+  · intro a ha
+    obtain ⟨kv, hkv, hk⟩ := executed_keys ha
+    rw [hk]
+    exact hframe kv hkv
+
+example : ∀ kv ∈ sampleEnv, kv.1 ∉ ["line".toList, "cont".toList, "__data".toList] := by decide
+
+/-- the hypothesis is needed: a transferred variable whose name is a local of the receiving frame (here an ordinary
+name, `data`) ends up in that local and is unset in the daemon's shell afterwards, while its neighbours arrive -/
+theorem receiving_frame_counterexample :
+    let st := Store.runIn ["size".toList, "data".toList] (fun _ => none)
+      [⟨"data".toList, .scalar "v".toList, true⟩, ⟨"VT_a".toList, .scalar "w".toList, true⟩]
+    st "data".toList = none ∧ st "VT_a".toList = some ⟨.scalar "w".toList, true⟩ := by
+  simp [Store.runIn, Store.run, Store.assign]
+
 /-- **framing_length_correct** — for *every* text (any characters) and whatever follows in the pipe, the count
 announced by `send_env` is exactly what `read -N` consumes: the daemon obtains the bytes of the text and the
 pipe is left at the first byte after it. -/
